@@ -246,6 +246,45 @@ func runB1(p *an.Prog, r *an.Result) {
 					return
 				}
 				r.Counts["condition values"]++
+				// first truthy branch wins and ends the search: where the value is known to be neither nil
+				// nor false, no path leads back to the evaluation of a (later) condition
+				if reachesBlock(c.Block(), c.Block()) {
+					var val ssa.Value
+					if c.Referrers() != nil {
+						for _, u := range *c.Referrers() {
+							if ex, ok := u.(*ssa.Extract); ok && ex.Index == 0 {
+								val = ex
+							}
+						}
+					}
+					isVal := func(v ssa.Value) bool {
+						if mi, ok := v.(*ssa.MakeInterface); ok {
+							v = mi.X
+						}
+						return val != nil && v == val
+					}
+					for _, blk := range f.Blocks {
+						notNil, notFalse := false, false
+						for _, g := range an.GuardsAt(blk) {
+							b, ok := g.Cond.(*ssa.BinOp)
+							if !ok || (b.Op != token.EQL && b.Op != token.NEQ) || g.True != (b.Op == token.NEQ) {
+								continue
+							}
+							for _, pair := range [][2]ssa.Value{{b.X, b.Y}, {b.Y, b.X}} {
+								if isVal(pair[0]) && an.IsNilConst(pair[1]) {
+									notNil = true
+								}
+								if isVal(pair[0]) && isFalseIface(pair[1]) {
+									notFalse = true
+								}
+							}
+						}
+						if notNil && notFalse && (blk == c.Block() || reachesBlock(blk, c.Block())) {
+							r.Bad(roles.Label(f), "conditions are evaluated after a branch was chosen", an.InstrPos(blk.Instrs[0]), "from the point where a condition's value is known to be truthy a path leads back to the evaluation of the next condition: a later condition that cannot be evaluated fails a template whose chosen branch never needed it")
+							break
+						}
+					}
+				}
 				if why, pos := truthinessOnly(p, c, 0, map[ssa.Value]bool{}); why == "" {
 					r.OK(roles.Label(f), "condition value decides by nil/false only", c.Pos(), "every use is a comparison with nil or false, values.Equal, or the clause test")
 				} else {
@@ -943,6 +982,7 @@ func runB6(p *an.Prog, r *an.Result) {
 		return
 	}
 	bodyBlk := bodyCalls[0].Block()
+	bodyFlow := flowOfError(bodyCalls[0])
 	// the head of the Go loop: the block that tests the loop condition (dominates the body, has a back edge)
 	check := func(g *ssa.Global, wantContinue bool) {
 		found := false
@@ -1009,8 +1049,38 @@ func runB6(p *an.Prog, r *an.Result) {
 					if ret, ok := in.(*ssa.Return); ok {
 						reachRet = true
 						res := resultsOf(ret)
-						if len(res) > 0 && !an.IsNilConst(res[len(res)-1]) {
+						if len(res) > 0 && !an.IsNilConst(res[len(res)-1]) && bodyFlow.derived[res[len(res)-1]] {
+							// the body's error itself is handed on (the error of a later call - closing the row - is not the sentinel)
 							retErr = true
+						}
+					}
+				}
+				// on this path the body's error is known to be the sentinel g: a later test of it has one feasible edge
+				if li, ok := bl.Instrs[len(bl.Instrs)-1].(*ssa.If); ok {
+					if cb, ok := li.Cond.(*ssa.BinOp); ok && (cb.Op == token.EQL || cb.Op == token.NEQ) {
+						eqEdge, neEdge := 0, 1
+						if cb.Op == token.NEQ {
+							eqEdge, neEdge = 1, 0
+						}
+						for _, pair := range [][2]ssa.Value{{cb.X, cb.Y}, {cb.Y, cb.X}} {
+							if bodyFlow.derived[pair[0]] && an.IsNilConst(pair[1]) {
+								dfs(bl.Succs[neEdge])
+								return
+							}
+							c := an.CallOf(pair[0])
+							if c == nil || !c.IsInvoke() || c.Method.Name() != "Cause" || !bodyFlow.derived[c.Value] {
+								continue
+							}
+							if u, ok := pair[1].(*ssa.UnOp); ok {
+								if og, isG := u.X.(*ssa.Global); isG {
+									if og == g {
+										dfs(bl.Succs[eqEdge])
+									} else {
+										dfs(bl.Succs[neEdge])
+									}
+									return
+								}
+							}
 						}
 					}
 				}
